@@ -24,6 +24,11 @@ def harnesses(tier):
         hs.append(esccommon.escape('c16_esc', fmt, 3 if fmt in (2, 3) and tier == 'quick' else EN, tier, u8=True))
     hs.append(dict(name='c16_char_table', src='c16/chartab.c', units=['repo:char.c'], unwind=4, timeout=300, mem_gb=4,
                    bounds='all 256 byte values (exhaustive)', desc='char.c smart_char_type: no byte >= 0x80 is classified as whitespace, line ending or punctuation by the byte-class predicates used for trimming'))
+    hs.append(dict(name='c16_meta_value_at_eof', src='c11/stripvalue.c', defs=dict(TERM=0, VL=3, U8=1, DS_CAP=16),
+                   units=[dict(src='repo:mmd.c', cflags=['-include', 'vh_libc.h']), dict(src='repo:writer.c', cflags=['-include', 'vh_libc.h']), 'repo:token.c', 'repo:stack.c', 'repo:object_pool.c', 'repo:char.c', 'common/ds_model.c'],
+                   unwind=12, unwindset=['label_from_string.0:4', 'label_from_string.1:4'], timeout=900, mem_gb=6, functional=True, pool_off=True, replay=False,
+                   bounds='metadata value of 3 bytes ending in a 2-byte UTF-8 character, at end of input without newline',
+                   desc='the `len--` adjustment in strip_line_tokens_from_metadata never cuts a multi-byte character'))
     LXN = 2 if tier == 'quick' else 3
     hs.append(dict(name='c16_lexer_boundaries', src='irb/lexer.c', defs=dict(N=LXN, U8=1), prepare=irb.prepare_lexer,
                    unwind_auto=[10 * LXN, 16 * LXN, 25 * LXN, 40 * LXN], timeout=1500 if tier == 'quick' else 6000, mem_gb=10, functional=True,
